@@ -19,6 +19,11 @@ ASTRAL = "😀𝕦𝔘\U0001F1E6\U00010348\U000E0001"
 # a narrowing cast or a table indexed by the low byte confuses them with that character
 ALIAS_TARGETS = "0123456789abcdefABCDEF%+/&=;#?@: ."
 ALIAS_CHARS = [chr(off + ord(c)) for c in ALIAS_TARGETS for off in (0x100, 0x400, 0x2000, 0x10000, 0x10300) if not (0xD800 <= off + ord(c) <= 0xDFFF)]
+# code points at the edges of the UTF-8 length classes and of the surrogate block, and their images in every astral plane
+# (a test on the low 16 bits, a UTF-16 style mask or an off-by-one range confuses them)
+_EDGES = [0x0000, 0x007F, 0x0080, 0x07FF, 0x0800, 0x0FFF, 0x1000, 0xD7FF, 0xD800, 0xDBFF, 0xDC00, 0xDFFF, 0xE000, 0xFFFD, 0xFFFE, 0xFFFF]
+BOUNDARY_CHARS = sorted({chr(cp) for cp in [0x80, 0x7FF, 0x800, 0xFFF, 0x1000, 0xD7FF, 0xE000, 0xFFFD, 0xFFFE, 0xFFFF, 0x10000, 0x10FFFF, 0x1FFFF, 0x20000, 0xFFFFF, 0x100000]}
+                        | {chr((plane << 16) | e) for plane in range(1, 17) for e in _EDGES})
 LONE_HIGH = "\ud83d"
 LONE_LOW = "\udc80"
 
@@ -103,6 +108,8 @@ class TextGen:
             return "malformed", r.choice(MALFORMED)
         if k < 0.88:
             return "dots", r.choice([".", "..", "./", "../", "/.", "/..", "...", "..a", "...tar", "..a.b", ".a"])
+        if k < 0.905 and k >= 0.9 and self.nonascii:
+            return "edge", r.choice(BOUNDARY_CHARS)
         if k < 0.9 and k >= 0.895 and self.nonascii:
             c = r.choice(CONFUSABLE_SAMPLE)
             return "confusable", r.choice([c, "%" + c + c, "%4" + c, c + ":", c + "1"])
